@@ -32,7 +32,7 @@ CLAIMED['C03'] = dict(
     technique=SYMEX + '; history-based betting-rule model as oracle, symbolic amount probe',
     text='At every betting decision of every explored history (symbolic stacks and raise sizes) the real queries are compared with a rule model derived '
          'from the action history, and for a symbolic amount x can_complete_bet_or_raise_to(x) <=> x in the model range (all x at once).',
-    note='opener of each round and chips at round start read from the engine (C13/C01); depth <= 3 (n=2), <= 2 (n=3) quick; blinds concrete 1/2; int chips')
+    note='opener of each round and chips at round start read from the engine (C13/C01); depth <= 3 (n=2), <= 2 (n=3) quick; scripted 4-player short-all-in shapes with symbolic stacks (re-raise only when facing a full raise); blinds concrete 1/2; int chips')
 CLAIMED['C05'] = dict(
     technique=SYMEX + '; parametric lookup (validity bit and strength index per card subset are solver variables)',
     text='The real from_game composition code runs over placeholder cards with a lookup whose has_entry/get_entry answers are z3 variables; an oracle enumerating the '
